@@ -3,8 +3,9 @@
 
    Proved, for ARBITRARY bodies (hence for every panic of the un-modelled compiler passes that
    Go's recover can catch): NewPackage without Recorder returns (never lets a panic out) and a
-   panic becomes exactly one more error (so err != nil); with a Recorder the panic escapes exactly
-   when gogen.NewPackage raised or rec.Complete raises (finding recorder-nil-pkg); the nested
+   panic becomes exactly one more error (so err != nil); with a Recorder the only panic that can
+   still leave NewPackage is one raised by rec.Complete itself (a panic of gogen.NewPackage is returned as an
+   error since repair 162cdf8); the nested
    recovers of loadImport / loadSymbol / compileStmt never raise, so only class loading can abort
    the body; x/build's helpers turn every panic into an error.  K-gen: the audit of the seven
    entry points regenerated from the source satisfies the shape the model assumes.
@@ -41,20 +42,36 @@ Theorem C07_new_package_returns :
     end.
 Proof. intros. apply new_package_returns. Qed.
 
+(* with a Recorder (after repair 162cdf8): the only panic that can leave NewPackage is rec.Complete's own,
+   on a package that gogen.NewPackage did create *)
 Theorem C07_new_package_recorder_escape_iff :
-  forall (X E W : Type) (recover_err : X -> E) (gogen_new body tail rec_complete : @comp X E W) s0,
-    (exists x, new_package recover_err true true true gogen_new body tail rec_complete s0 = Escaped x) <->
-    ((exists x s1, gogen_new s0 = (Raised x, s1)) \/
-     (exists p err s, new_package recover_err true false true gogen_new body tail (fun s => (Done, s)) s0 = Returned p err s /\
-                      p = true /\ exists x s', rec_complete s = (Raised x, s'))).
+  forall (X E W : Type) (recover_err : X -> E) (gogen_new body tail rec_complete : @comp X E W) s0 x,
+    new_package recover_err true true true gogen_new body tail rec_complete s0 = Escaped x <->
+    (exists err s y s', new_package recover_err true false true gogen_new body tail (fun s => (Done, s)) s0 = Returned true err s /\
+                        rec_complete s = (Raised y, s') /\ x = Some y).
 Proof. intros. apply new_package_recorder_escape_iff. Qed.
 
-(* the refutation of "no escape" with a Recorder: gogen.NewPackage raising leaves p nil *)
-Theorem C07_new_package_recorder_nil_pkg_refuted :
+(* a panic of gogen.NewPackage is returned as an error with p = nil, with or without Recorder
+   (before the repair the deferred rec.Complete dereferenced the nil p: finding recorder-nil-pkg, fixed) *)
+Theorem C07_new_package_gogen_panic_returns :
+  forall (X E W : Type) (recover_err : X -> E) has_rec (gogen_new body tail rec_complete : @comp X E W) s0 x s1,
+    gogen_new s0 = (Raised x, s1) ->
+    new_package recover_err true has_rec true gogen_new body tail rec_complete s0 =
+      Returned false (errs s1 ++ [recover_err x]) (handle_recover recover_err x s1).
+Proof. intros. apply new_package_gogen_panic_returns. assumption. Qed.
+
+Theorem C07_new_package_recorder_no_escape :
+  forall (X E W : Type) (recover_err : X -> E) (gogen_new body tail rec_complete : @comp X E W) s0,
+    (forall s, fst (rec_complete s) = Done) ->
+    exists p err s, new_package recover_err true true true gogen_new body tail rec_complete s0 = Returned p err s.
+Proof. intros. apply new_package_recorder_no_escape. assumption. Qed.
+
+(* what still escapes with a Recorder: a panic raised by rec.Complete itself (it runs after the recover) *)
+Theorem C07_new_package_recorder_complete_escapes :
   exists (gogen_new body tail rec_complete : @comp N N unit) s0,
-    new_package (fun x => x) true true true gogen_new body tail rec_complete s0 = Escaped None.
+    new_package (fun x => x) true true true gogen_new body tail rec_complete s0 = Escaped (Some 9%N).
 Proof.
-  exists (fun s => (Raised 1%N, s)), (fun s => (Done, s)), (fun s => (Done, s)), (fun s => (Done, s)), (mk_st [] tt).
+  exists (fun s => (Done, s)), (fun s => (Done, s)), (fun s => (Done, s)), (fun s => (Raised 9%N, s)), (mk_st [] tt).
   reflexivity.
 Qed.
 
@@ -124,8 +141,8 @@ Example C07_example_class_panic_aborts :
   = Returned true [ERecovered 8]%N (mk_st [ERecovered 8]%N tt).
 Proof. vm_compute. reflexivity. Qed.
 
-Example C07_example_recorder_escape :
-  scenario_result true true (IPanic 1) IOk [] [] IOk IOk = Escaped None.
+Example C07_example_recorder_gogen_panic :
+  scenario_result true true (IPanic 1) IOk [] [] IOk IOk = Returned false [ERecovered 1]%N (mk_st [ERecovered 1]%N tt).
 Proof. vm_compute. reflexivity. Qed.
 
 Example C07_example_disabled :
@@ -135,7 +152,9 @@ Proof. vm_compute. reflexivity. Qed.
 Print Assumptions C07_new_package_no_escape.
 Print Assumptions C07_new_package_returns.
 Print Assumptions C07_new_package_recorder_escape_iff.
-Print Assumptions C07_new_package_recorder_nil_pkg_refuted.
+Print Assumptions C07_new_package_gogen_panic_returns.
+Print Assumptions C07_new_package_recorder_no_escape.
+Print Assumptions C07_new_package_recorder_complete_escapes.
 Print Assumptions C07_new_package_disabled_escapes.
 Print Assumptions C07_compile_stmts_no_raise.
 Print Assumptions C07_load_symbol_no_raise.
